@@ -2,7 +2,7 @@
 substrate, one case per stdin line, one JSON result per stdout line.
 
     c01_impl.py <repo> explore     case = {"e": entry, "t": text}
-    c01_impl.py <repo> core        case = {"x": <core term>}            (see c01_core.py notes below)
+    c01_impl.py <repo> core        case = {"k": "pp", "x": <term of the Coq model>} | {"k": "parse", "t": text}
     c01_impl.py <repo> lexpairs    case = {"a": text, "b": text}        (adjacency sweep on the real lexer)
     c01_impl.py <repo> grammar     (no stdin) dumps the productions of the repo grammar as JSON
 
